@@ -1,14 +1,16 @@
-SPECIFICATION GenSpec
+SPECIFICATION Spec
 CONSTANTS
-  Nodes = {1, 2, 3}
+  Nodes = {1, 2}
   Slots = {"A", "B"}
   Keys = {"a1", "a2", "b1"}
   SlotOf <- MCSlotOf
-  MaxCmds = 10
-  MaxHops = 4
+  MaxCmds = 3
+  MaxHops = 3
   WithMigration = TRUE
   EmptyTableAtStart = FALSE
-  AtomicAsk = TRUE
+  AtomicAsk = FALSE
   WithFailover = FALSE
   FixRefreshOnDialError = TRUE
+INVARIANTS EqualsReference EffectOnce SingleCopy CopyIsReference NoLostKey FirstHopIsOwner
+CONSTRAINT HopBound
 CHECK_DEADLOCK FALSE
